@@ -593,6 +593,20 @@ func (c *c15) bounds() {
 			residue[filepath.Clean(m[1])+":"+m[2]+":"+m[3]] = true
 		}
 	}
+	c15Decls = map[*types.Func]*ast.FuncDecl{}
+	for _, path := range repoPaths() {
+		if p := c.s.Pkgs[path]; p != nil {
+			for _, f := range p.Syntax {
+				for _, d := range f.Decls {
+					if fd, ok := d.(*ast.FuncDecl); ok {
+						if fo, ok := p.TypesInfo.Defs[fd.Name].(*types.Func); ok {
+							c15Decls[fo] = fd
+						}
+					}
+				}
+			}
+		}
+	}
 	nIdx, nProved, nIdiom := 0, 0, 0
 	forEachReachableDecl(c.s, func(p *pkgT, fd *ast.FuncDecl, fkey string) {
 		info := p.TypesInfo
@@ -725,8 +739,141 @@ func enclosingThenConds(fd *ast.FuncDecl, e ast.Node) []ast.Expr {
 	return out
 }
 
+// c15Decls: declarations of the repo's functions (for predicate helpers), set by runC15.
+var c15Decls map[*types.Func]*ast.FuncDecl
+
+// expandConds replaces, in a list of conditions known to hold, (a) a boolean variable that is
+// assigned exactly once in the function by the expression it was assigned, and (b) a call of a
+// repo function whose body is a single `return <boolean expression over its parameters>` by that
+// expression with the arguments substituted; conjunctions are split again.
+func expandConds(info *types.Info, fd *ast.FuncDecl, conds []ast.Expr) []ast.Expr {
+	var out []ast.Expr
+	var add func(c ast.Expr, depth int)
+	add = func(c ast.Expr, depth int) {
+		c = ast.Unparen(c)
+		if be, ok := c.(*ast.BinaryExpr); ok && be.Op == token.LAND {
+			add(be.X, depth)
+			add(be.Y, depth)
+			return
+		}
+		out = append(out, c)
+		if depth > 3 {
+			return
+		}
+		switch x := c.(type) {
+		case *ast.Ident:
+			o := identObj(info, x)
+			if o == nil {
+				return
+			}
+			var rhs []ast.Expr
+			ast.Inspect(fd.Body, func(n ast.Node) bool {
+				if as, ok := n.(*ast.AssignStmt); ok && len(as.Lhs) == len(as.Rhs) {
+					for i, l := range as.Lhs {
+						if identObj(info, l) == o {
+							rhs = append(rhs, as.Rhs[i])
+						}
+					}
+				}
+				return true
+			})
+			if len(rhs) == 1 {
+				// the variables the expression reads must not change between its evaluation and the
+				// use: each is assigned at most once in the function
+				stable := true
+				ast.Inspect(rhs[0], func(n ast.Node) bool {
+					id, ok := n.(*ast.Ident)
+					if !ok {
+						return true
+					}
+					v, isVar := identObj(info, id).(*types.Var)
+					if !isVar {
+						return true
+					}
+					cnt := 0
+					ast.Inspect(fd.Body, func(m ast.Node) bool {
+						switch a := m.(type) {
+						case *ast.AssignStmt:
+							for _, l := range a.Lhs {
+								if identObj(info, l) == v {
+									cnt++
+								}
+							}
+						case *ast.IncDecStmt:
+							if identObj(info, a.X) == v {
+								cnt += 2
+							}
+						case *ast.UnaryExpr:
+							if a.Op == token.AND && identObj(info, a.X) == v {
+								cnt += 2
+							}
+						}
+						return true
+					})
+					if cnt > 1 {
+						stable = false
+					}
+					return true
+				})
+				if stable {
+					add(rhs[0], depth+1)
+				}
+			}
+		case *ast.CallExpr:
+			fo, _ := typeutil.Callee(info, x).(*types.Func)
+			d := c15Decls[fo]
+			if d == nil || d.Body == nil || len(d.Body.List) != 1 || d.Recv != nil {
+				return
+			}
+			ret, ok := d.Body.List[0].(*ast.ReturnStmt)
+			if !ok || len(ret.Results) != 1 {
+				return
+			}
+			sub := map[string]ast.Expr{}
+			i := 0
+			for _, f := range d.Type.Params.List {
+				for _, n := range f.Names {
+					if i < len(x.Args) {
+						sub[n.Name] = x.Args[i]
+					}
+					i++
+				}
+			}
+			add(substIdents(ret.Results[0], sub), depth+1)
+		}
+	}
+	for _, c := range conds {
+		add(c, 0)
+	}
+	return out
+}
+
+// substIdents copies the operator/call spine of e, replacing identifiers by name.
+func substIdents(e ast.Expr, sub map[string]ast.Expr) ast.Expr {
+	switch x := e.(type) {
+	case *ast.Ident:
+		if r, ok := sub[x.Name]; ok {
+			return r
+		}
+		return x
+	case *ast.ParenExpr:
+		return &ast.ParenExpr{Lparen: x.Lparen, X: substIdents(x.X, sub), Rparen: x.Rparen}
+	case *ast.UnaryExpr:
+		return &ast.UnaryExpr{OpPos: x.OpPos, Op: x.Op, X: substIdents(x.X, sub)}
+	case *ast.BinaryExpr:
+		return &ast.BinaryExpr{X: substIdents(x.X, sub), OpPos: x.OpPos, Op: x.Op, Y: substIdents(x.Y, sub)}
+	case *ast.CallExpr:
+		args := make([]ast.Expr, len(x.Args))
+		for i, a := range x.Args {
+			args[i] = substIdents(a, sub)
+		}
+		return &ast.CallExpr{Fun: x.Fun, Lparen: x.Lparen, Args: args, Ellipsis: x.Ellipsis, Rparen: x.Rparen}
+	}
+	return e
+}
+
 func s1BoundsIdiom(info *types.Info, fd *ast.FuncDecl, e ast.Expr) string {
-	conds := enclosingThenConds(fd, e)
+	conds := expandConds(info, fd, enclosingThenConds(fd, e))
 	hasPrefixSuffix := func(x ast.Expr) bool {
 		pre, suf := "", ""
 		for _, c := range conds {
